@@ -1,6 +1,7 @@
 package main
 
 import (
+	"strings"
 	"go/ast"
 	"go/token"
 	"go/types"
@@ -10,7 +11,7 @@ func init() {
 	register(&propDef{
 		id: "C46", title: "Stream junctions preserve elements and per-branch order",
 		technique: "per-message-case CFG rules (every path through an element-handling case forwards or buffers the element; forwarding sites carry the received value to the intended branch), guard dominance with edge facts, FIFO-shape rule on the junction queue",
-		explanation: "Decides element conservation and routing shape of the junction actors: for the hubs of Broadcast, Balance and Partition and the fan-in actors of Merge, weighted Merge, Concat and ZipN: (1) in the case that handles an incoming element every path either forwards the received value (streamElement with value = the received value) or buffers it; Partition may drop only on its documented out-of-range / cancelled-branch edge; (2) Broadcast forwards inside a loop over all slots in which only cancelled (nil) slots are skipped; Balance forwards at most once per element, to a slot chosen under demand > 0 and not cancelled; Partition forwards to the slot its function returned for that value, with that slot's subscription id; (3) fan-in actors emit only values popped from their buffers, under demand > 0, decrementing demand; they complete only on the edge 'all inputs done and buffers empty'; Concat starts the next input only from the done notification of the current one, in index order; ZipN pops exactly one value per slot in slot order into the same tuple position and emits only when every slot has a value; (4) hubs pull from upstream only when nothing is in flight and never more than the demand they can serve (total demand for Balance, minimum demand for Broadcast/Partition); (5) the junction queue is FIFO (push appends at the tail, pop takes from the head). Ordering across actors relies on per-sender FIFO mailboxes (C04) and is not re-derived; fairness of Balance is not decided. Added after seed C46a: every tuple Zip emits is a slice of its own: the argument of combineFn is a local defined once, by make, inside the emission loop (the documented 'fresh slice on every call').",
+		explanation: "Decides element conservation and routing shape of the junction actors: for the hubs of Broadcast, Balance and Partition and the fan-in actors of Merge, weighted Merge, Concat and ZipN: (1) in the case that handles an incoming element every path either forwards the received value (streamElement with value = the received value) or buffers it; Partition may drop only on its documented out-of-range / cancelled-branch edge; (2) Broadcast forwards inside a loop over all slots in which only cancelled (nil) slots are skipped; Balance forwards at most once per element, to a slot chosen under demand > 0 and not cancelled; Partition forwards to the slot its function returned for that value, with that slot's subscription id; (3) fan-in actors emit only values popped from their buffers, under demand > 0, decrementing demand; they complete only on the edge 'all inputs done and buffers empty'; Concat starts the next input only from the done notification of the current one, in index order; ZipN pops exactly one value per slot in slot order into the same tuple position and emits only when every slot has a value; (4) hubs pull from upstream only when nothing is in flight and never more than the demand they can serve (total demand for Balance, minimum demand for Broadcast/Partition); (5) the junction queue is FIFO (push appends at the tail, pop takes from the head). Ordering across actors relies on per-sender FIFO mailboxes (C04) and is not re-derived; fairness of Balance is not decided. Added after seed C46a: every tuple Zip emits is a slice of its own: the argument of combineFn is a local defined once, by make, inside the emission loop (the documented 'fresh slice on every call'). Added after seed C46b: no queue-typed buffer field of a stream stage is re-assigned outside a constructor or the stageWire (wiring) case.",
 		assumptions: []string{"per-sender FIFO delivery between stage actors (C04)", "actor turn atomicity"},
 		minObl:     52,
 		run:        runC46,
@@ -632,6 +633,71 @@ func runC46(c *Ctx) {
 		w := af.AfterEdgesMayReach(emptyEdge, nil, nil, retTrue)
 		c.Check(w == nil && len(emptyEdge) > 0, "allReady⇒none-empty", "allReady reports true only if no input buffer is empty", c.P.Pos(ar.Decl.Pos()), af.describe(w))
 	})
+	c.Rule("buffers-never-replaced", func() {
+		// a junction's element buffer holds elements that were received but not yet demanded downstream: it is only
+		// pushed to and popped from; assigning a fresh queue to it (outside a constructor) silently drops them
+		q := c.Named("stream", "queue")
+		n := 0
+		pk := c.pkg("stream")
+		for _, name := range pk.Types.Scope().Names() {
+			tn, ok := pk.Types.Scope().Lookup(name).(*types.TypeName)
+			if !ok {
+				continue
+			}
+			st, ok := tn.Type().Underlying().(*types.Struct)
+			if !ok {
+				continue
+			}
+			for i := 0; i < st.NumFields(); i++ {
+				fv := st.Field(i)
+				ft := fv.Type()
+				if sl, ok := ft.Underlying().(*types.Slice); ok {
+					ft = sl.Elem()
+				}
+				if nt := namedOf(ft); nt == nil || nt.Origin().Obj() != q.Origin().Obj() {
+					continue
+				}
+				for _, u := range c.UsesOf(fv) {
+					if !u.IsWrite || u.Sel == nil || u.EnclObj == nil {
+						continue
+					}
+					// only whole-field assignments (x.buf = …), not x.bufs[i].push(…)
+					if len(u.Path) >= 2 {
+						if as, ok := u.Path[len(u.Path)-2].(*ast.AssignStmt); ok {
+							isLhs := false
+							for _, l := range as.Lhs {
+								if l == u.Path[len(u.Path)-1] {
+									isLhs = true
+								}
+							}
+							if !isLhs {
+								continue
+							}
+						} else {
+							continue
+						}
+					}
+					n++
+					ctor := strings.HasPrefix(u.EnclObj.Name(), "new") || strings.HasPrefix(u.EnclObj.Name(), "New")
+					// sizing the buffers while the stage is being wired (case *stageWire, before any sub-pipeline runs) is
+					// construction too
+					for _, pn := range u.Path {
+						if cc, ok := pn.(*ast.CaseClause); ok {
+							for _, e := range cc.List {
+								if nt := namedOf(u.Pkg.TypesInfo.TypeOf(e)); nt != nil && nt.Obj().Name() == "stageWire" {
+									ctor = true
+								}
+							}
+						}
+					}
+					c.Check(ctor, "replace@"+u.EnclName()+"/"+tn.Name()+"."+fv.Name(), "a stage's element buffer is never replaced after construction (buffered, not yet demanded elements would be dropped)", u.Where(c.P), "the buffer is re-assigned in "+u.EnclName())
+				}
+			}
+		}
+		c.Ok("scanned", "every queue-typed field of the stream stages was examined", "-")
+		_ = n
+	})
+
 	c.Rule("queue-fifo", func() {
 		push, pop := c.Func("stream", "queue.push"), c.Func("stream", "queue.pop")
 		data, head := c.Field("stream", "queue", "data"), c.Field("stream", "queue", "head")
